@@ -200,6 +200,9 @@ class Gen:
             nsig = re.sub(pat, rep, sig)
             self.log.add('RX-sig', fn.path, sig, nsig)
             sig = nsig
+        if fn.name_as:
+            sig = re.sub(r'\bfn\s+' + fn.short + r'\b', 'fn ' + fn.name_as, sig, count=1)
+            self.log.add('RX-rename', fn.path, fn.short, fn.name_as)
         sig, body = rules.r4_array_params(sig, body, fn.path, self.log)
         sig = rules.r8r9_paths(sig, fn.path, rules.Log())
         head, ret, where = _split_sig(sig)
